@@ -380,8 +380,21 @@ def envOfCase (c : Case) (tl : Rune → Rune) : Env :=
   { flags := c.flags, opts := c.opts, rules := c.rules,
     code := Blocks.codeEnv hasState c.blocks, toLower := tl, input := c.input }
 
+/-- every class node that carries a lookup table -/
+partial def classNodes : Expr → List ClassDesc
+  | .cls _ c => if c.basicLatin.isEmpty then [] else [c]
+  | .action _ _ e | .and _ e | .not _ e | .labeled _ _ e | .oneOrMore _ e | .zeroOrMore _ e
+  | .zeroOrOne _ e => classNodes e
+  | .choice _ _ _ es | .seq _ es => es.flatMap classNodes
+  | .recovery _ e r _ => classNodes e ++ classNodes r
+  | _ => []
+
 def runCase (c : Case) (tl : Rune → Rune) : String :=
   let E := envOfCase c tl
+  -- tie of the real builder.BasicLatinLookup (the tables in the case line come from it) to the model's
+  match (c.rules.flatMap (fun r => classNodes r.expr)).find? (fun cd => cd.basicLatin != RT.basicLatinLookup E cd) with
+  | some cd => s!"res {c.id} blmismatch {hexOfString cd.val}"
+  | none =>
   fmtResult c.id E (if c.stats then "no match" else "") (RT.parse E c.fuel)
 
 end Protocol
